@@ -6,20 +6,20 @@ import core, mutate
 
 
 def evaluate(patch, pids):
-    F, st, msg = mutate.facts_of_variant(patch)
-    if F is None:
-        return st, msg, {}
-    out = {}
-    for pid in pids:
-        mod = importlib.import_module(pid.lower())
-        try:
-            lines, violations, known, ev, results = core.run_property(pid, mod, 'quick', facts=F, write=False)
-            out[pid] = [(r.rule, r.key, r.msg, r.where) for r in violations]
-        except Exception as e:
-            import traceback
-            traceback.print_exc()
-            out[pid] = [('ERROR', str(e), '', None)]
-    return st, msg, out
+    with mutate.variant(patch) as (F, st, msg, d):
+        if F is None:
+            return st, msg, {}
+        out = {}
+        for pid in pids:
+            mod = importlib.import_module(pid.lower())
+            try:
+                lines, violations, known, ev, results = core.run_property(pid, mod, 'quick', facts=F, write=False)
+                out[pid] = [(r.rule, r.key, r.msg, r.where) for r in violations]
+            except Exception as e:
+                import traceback
+                traceback.print_exc()
+                out[pid] = [('ERROR', str(e), '', None)]
+        return st, msg, out
 
 
 if __name__ == '__main__':
